@@ -2,7 +2,7 @@
 import itertools
 import sys
 
-from mc import core, lib
+from mc import core, hist, lib
 from scoda.elements.bar import Bar
 from scoda.misc.music_theory import Key
 
@@ -12,7 +12,7 @@ RULE = ("all sequences of <=3 notes over the pitch alphabet {21,22,32,33,60,96,9
         "interval in [-100,100]; non-trivial = interval != 0")
 ASSUMPTIONS = ["when octave wrapping happens only the image/in-range/return-value clauses apply (the library re-normalises "
                "and re-quantises lengths there)"]
-REQUIRED_FLAGS = ["wrapped_up", "wrapped_down", "not_wrapped_exact", "interval_multiple_of_12", "interval_beyond_range",
+REQUIRED_FLAGS = ["after_history", "aliased_messages_inside_sequence", "wrapped_up", "wrapped_down", "not_wrapped_exact", "interval_multiple_of_12", "interval_beyond_range",
                   "key_event_transposed", "bar_key_transposed", "collision_after_wrap", "roundtrip_checked"]
 
 PITCHES = [21, 22, 32, 33, 60, 96, 97, 107, 108]
@@ -34,13 +34,22 @@ def units(ctx):
     if ctx["tier"] != "quick":
         for iv in range(-100, 101):
             yield ("seq4", iv)
+    yield from hist.hist_units()
 
 
 def _alpha(ctx):
     return [(o, 12, p, ctx["ch"], 64) for o in (0, 12) for p in PITCHES]
 
 
+HIST_IVS = [1, -1, 2, 12, -13, 40, -40, 87]
+
+
 def gen_cases(unit, ctx):
+    if unit[0] == "hist":
+        for h in hist.hist_of_unit(unit):
+            for iv in HIST_IVS:
+                yield {"seed": unit[1], "build": unit[2], "hist": h, "iv": iv, "key": None, "bar": False}
+        return
     fam, iv = unit
     al = _alpha(ctx)
     if fam == "seq":
@@ -64,9 +73,32 @@ def gen_cases(unit, ctx):
 
 def check_case(case, ctx):
     R = core.Res()
-    notes, key, iv = case["notes"], case["key"], case["iv"]
-    events = [("ks", 0, key)] if key else []
-    s = lib.seq_abs(notes, events, dur=24)
+    key, iv = case["key"], case["iv"]
+    if "hist" in case:
+        # live object reached through a history; expectation from the content read back just before transposing
+        s = hist.build_seed(hist.seed_descs(60, ctx["ch"], ctx["ch"] + 1)[case["seed"]], case["build"])
+        try:
+            hist.apply(s, case["hist"], {"hp": 107})      # the aliased / added motif sits at the range limit
+        except Exception as e:  # noqa: BLE001
+            R.outcome = "history_raises:" + type(e).__name__
+            return R
+        d = hist.observe_desc(s)
+        if d is None:
+            R.outcome = "history_leaves_unobservable_state"
+            return R
+        notes = [list(n) for n in d[0]]
+        kk = [e for e in d[1] if e[0] == "ks"]
+        key = kk[0][2] if len(kk) == 1 else None
+        if len(kk) > 1:
+            R.outcome = "two_keys"
+            return R
+        R.flags.append("after_history")
+        if "concat_alias" in case["hist"]:
+            R.flags.append("aliased_messages_inside_sequence")
+    else:
+        notes = case["notes"]
+        events = [("ks", 0, key)] if key else []
+        s = lib.seq_abs(notes, events, dur=24)
     obj = s
     bar = None
     if case["bar"]:
